@@ -10,6 +10,7 @@ import os
 import pathlib
 import shutil
 
+from . import c08_front
 from . import ser_common as sc
 
 LEVEL = "proof"
@@ -175,7 +176,8 @@ def run_config(ctx, drv, recipe, old_recipe, store, mode, pre, idx, call="exact"
     pathlib.Path), "relative" (a relative spelling of the same path).
     faults: "all" = every primitive call of the save is a fault position; "tail" = the fault-free run, the last
     four positions (end of staging + install: the only ones where the KIND of the pre-existing target matters)
-    and one earlier position; "stride" = the tail and every second position"""
+    and one earlier position; "stride" = the tail and every second position; "tmpstride" = every second position of
+    the temp-dir phase of the zip store and every later position"""
     scratch = os.path.join(os.environ.get("QVERIF_SCRATCH", "/tmp"), "c08")
     base = os.path.join(scratch, f"s{idx}")
     builder = sc.Builder(None)
@@ -269,6 +271,10 @@ def run_config(ctx, drv, recipe, old_recipe, store, mode, pre, idx, call="exact"
         fault_list = [None] + sorted(set(range(max(0, n - 4), n)) | ({idx % n} if n else set()))
     elif faults == "stride":
         fault_list = [None] + sorted(set(range(max(0, n - 4), n)) | set(range(idx % 2, n, 2)))
+    elif faults == "tmpstride":
+        # zip store: while the tree is written to the system temp dir nothing next to the target exists yet —
+        # every second position of that phase, every position from `ZipFile(staged, "w")` on
+        fault_list = [None] + [k for k in range(n) if steps[k] != "tmpWrite" or k % 2 == idx % 2]
     else:
         fault_list = [None] + list(range(n))
     for k in fault_list:
@@ -412,7 +418,7 @@ def run_natural_failure(ctx, drv, recipe, store, pre, idx, kind=None):
     spec_old = sc.observe(old) if pre == "earlier" else None
     state, detail = observe_target(target, ["obj", "?", []], spec_old, pre_hash, tree_hash(target))
     case = {"recipe": recipe, "store": store, "pre": pre, "unpicklable_at": pos, "bad_kind": bad_kind, "idx": idx}
-    listing = [p for p in sorted(os.listdir(base)) if p not in ("sib.txt", "sibdir", os.path.basename(target))]
+    listing = [p for p in sorted(os.listdir(base)) if p not in SIBLINGS + (os.path.basename(target),)]
     if raised is None:
         ctx.pred_fail(f"unserialisable-accepted:{bad_kind}", "an attribute the serializer cannot write did not make save raise: the target "
                       "loads to an object silently missing it", case, observed=state, required="exception, target absent or unchanged")
@@ -439,16 +445,16 @@ def history_stream(ctx, drv, n_hist):
         rng = rng0.fork(h)
         store = rng.choice(["zip", "dir"])
         zip_store = store == "zip"
-        pre = rng.choice(["absent", "absent", "earlier", "file", "emptydir"])
+        pre = rng.choice(["absent", "absent", "earlier", "earlier", "file", "emptydir", "placeholderdir", "linkdir", "dangling"])
         base = os.path.join(scratch, f"hist{h}")
         builder = sc.Builder(None)
         old_recipe = ["obj", "SB", [["old", ["scalar", sc.S(rng.randint(0, 99))]], ["arr", sc.gen_ndarray(rng)]]]
         old_obj = builder.build(old_recipe)
         target = setup_sandbox(base, store, pre, old_obj)
         pre_hash0 = tree_hash(target)
-        pre_content = {"absent": None, "file": ["foreign", 1], "earlier": ["complete", 3], "emptydir": ["foreign", 5]}[pre]
+        pre_content = PRE_CONTENT[pre]
         fs0 = [["sib", ["foreign", 9]]] + ([["T", pre_content]] if pre_content else [])
-        sib_hash = (tree_hash(os.path.join(base, "sib.txt")), tree_hash(os.path.join(base, "sibdir")))
+        sib_hash = sibling_hashes(base)
         ncalls = rng.randint(3, 5)
         calls, recipes, specs = [], [], {3: sc.observe(old_obj) if pre == "earlier" else None}
         impl_rows = []
@@ -463,7 +469,12 @@ def history_stream(ctx, drv, n_hist):
             mode = rng.choice(["o", "o", "w"])
             # dry run in a throw-away sandbox: number of primitives of this call from the current state
             exists = os.path.lexists(target)
-            refused = mode == "w" and exists
+            # exception safety: some calls of the history are REJECTED by argument validation (compression level
+            # outside 0..9) — the caller carries on with valid calls afterwards
+            bad_level = rng.choice([10, -1, 99]) if rng.chance(0.2) else None
+            refused = (mode == "w" and exists) or bad_level is not None
+            hash_before = tree_hash(target)
+            kwargs = {"compression_level": bad_level} if bad_level is not None else {}
             k = None
             nt = nw = 0
             if not refused:
@@ -471,7 +482,9 @@ def history_stream(ctx, drv, n_hist):
                 shutil.rmtree(dry, ignore_errors=True)
                 os.makedirs(dry)
                 dtarget = os.path.join(dry, os.path.basename(target))
-                if exists:
+                if exists and os.path.islink(target):
+                    os.symlink(os.readlink(target), dtarget)
+                elif exists:
                     (shutil.copytree if os.path.isdir(target) else shutil.copy2)(target, dtarget)
                 rec = Recorder(dtarget, None, Injected)
                 with instrumented(rec):
@@ -499,7 +512,7 @@ def history_stream(ctx, drv, n_hist):
                 rec.start()
                 try:
                     with contextlib.redirect_stdout(io.StringIO()):
-                        obj.save(target, mode=mode, store=store)
+                        obj.save(target, mode=mode, store=store, **kwargs)
                 except EXC_CLASSES:
                     raised = "Injected"
                 except Exception as e:  # noqa
@@ -508,14 +521,16 @@ def history_stream(ctx, drv, n_hist):
                     rec.stop()
             if raised is None:
                 last_ok = cid
-            case["calls"].append({"id": cid, "recipe": recipe, "mode": mode, "fault": k})
-            calls.append(dict({"staged": f"S{cid}", "id": cid, "modeO": mode == "o", "zip": zip_store, "nTmp": nt, "nWrites": nw},
+            case["calls"].append({"id": cid, "recipe": recipe, "mode": mode, "fault": k, "bad_level": bad_level})
+            calls.append(dict({"staged": f"S{cid}", "id": cid, "modeO": mode == "o", "zip": zip_store, "nTmp": nt, "nWrites": nw,
+                               "levelOk": bad_level is None},
                               **({"fault": k} if k is not None else {})))
             ctx.count()
             # ---- property on the real filesystem after this call
             post_hash = tree_hash(target)
             listing = sorted(os.listdir(base))
-            extra = [p for p in listing if p not in ("sib.txt", "sibdir", os.path.basename(target))]
+            extra = [p for p in listing if p not in SIBLINGS + (os.path.basename(target),)]
+            sib_now = sibling_hashes(base)      # before load(): see observe_target
             if not os.path.lexists(target):
                 state = "absent"
             elif post_hash == pre_hash0 and pre_content is not None and (pre_content[0] == "foreign" or last_ok == 3):
@@ -535,10 +550,15 @@ def history_stream(ctx, drv, n_hist):
                                   "complete object of the most recent successful call", dict(case), observed=list(state), required=["complete", last_ok])
             if extra:
                 ctx.pred_fail("leftover-path", "a save of a history left an extra path next to its target", dict(case), observed=extra, required=[])
-            if sib_hash != (tree_hash(os.path.join(base, "sib.txt")), tree_hash(os.path.join(base, "sibdir"))):
+            if sib_hash != sib_now:
                 ctx.pred_fail("sibling-altered", "a save of a history altered a path other than its target", dict(case), observed="hash changed", required="unchanged")
-            if mode == "w" and exists and raised != "FileExistsError":
+            if mode == "w" and exists and raised is None:
                 ctx.pred_fail("write-once", "write-once mode did not refuse an existing target (history)", dict(case), observed=raised, required="FileExistsError")
+            if mode == "w" and exists and post_hash != hash_before:
+                ctx.pred_fail("write-once-modified", "write-once mode modified an existing target (history)", dict(case), observed="hash changed", required="unchanged")
+            if bad_level is not None and (raised is None or post_hash != hash_before):
+                ctx.pred_fail("rejected-call-altered", "a save() with an invalid compression level did not raise, or altered the target", dict(case),
+                              observed=[raised, "hash changed" if post_hash != hash_before else "unchanged"], required=["ValueError", "unchanged"])
         # ---- model: every prefix of the history
         m = drv.ask({"op": "history", "target": "T", "staged": "S", "id": 0, "fs": fs0, "calls": calls})
         rows = m.get("ok") or []
@@ -591,7 +611,8 @@ def run(ctx):
                     # exhaustively): every second position and the install phase
                     run_config(ctx, drv, recipe, old_recipe, store, mode, pre, idx, call,
                                stem=(["dir", "file", None][(i + ci) % 3] if call == "noext" else None),
-                               faults=("stride" if (mode, pre) == ("o", "absent") else "all"))
+                               faults=("stride" if (mode, pre) == ("o", "absent") else
+                                       "tmpstride" if (store, mode) == ("zip", "o") else "all"))
                     idx += 1
                 # the KIND of a pre-existing target only matters from the end of staging on (_install): three more
                 # kinds per graph and store with the fault positions of that phase
@@ -610,6 +631,7 @@ def run(ctx):
                     run_natural_failure(ctx, drv, recipe, store, rng.choice(["absent", "earlier"]), idx)
                     idx += 1
         history_stream(ctx, drv, ctx.n(10, 100))
+        c08_front.front_stream(ctx, drv, ctx.n(120, 1500))
         ctx.exhaustive = False
         ctx.extra["exhaustive_in_fault_position_per_graph"] = True
     finally:
@@ -623,6 +645,8 @@ def replay(ctx, rep):
     try:
         if case.get("history"):
             history_stream(ctx, drv, ctx.n(10, 100))
+        elif case.get("front"):
+            c08_front.front_case(ctx, drv, case, 0)
         elif "unpicklable_at" in case:
             run_natural_failure(ctx, drv, case["recipe"], case["store"], case["pre"], case.get("idx", case["unpicklable_at"]), case.get("bad_kind"))
         else:
